@@ -162,6 +162,9 @@ impl C03 {
   }
 }
 
+/// (storage class | form pair) combinations observed to produce a value (quick tier, unchanged tree)
+pub const PINNED_SUPPORTED: &str = include_str!("c03_supported.txt");
+
 pub enum Expect { Elems(Vec<usize>, Option<(usize, usize)>, bool), MustError(&'static str), /// a valid index that selects nothing: an error or a result without elements, never some element
   Empty, Unjudged }
 
@@ -468,7 +471,7 @@ impl Check for C03 {
       each read is followed by a frame check of x", self.one.len(), tier.pick(6, 8), self.dim.len(), shapes(tier).len());
     rep.assumptions = vec![
       "negative and fractional indices, x[:,:] on unsupported storage, index matrices (2-D index arguments), empty selections and degenerate ranges are not judged".into(),
-      "an in-range form pair that is rejected for every kind and every value on a storage class counts as unsupported (outside the statement); rejected only for some is a violation".into(),
+      "an in-range form pair that is rejected for every kind and every value on a storage class counts as unsupported (outside the statement) unless it is on the pinned list of combinations that worked when the check was written (c03_supported.txt); rejected only for some is a violation".into(),
       "index values of kind u8..i128, f32, f64 (typed scalar / vector variables and suffixed literals, 1-D and 2-D forms, every shape, boundary and out-of-range positions) are compared with the plain literal spelling".into(),
       "result orientation of one-dimensional vector/range/mask reads is not fixed by the documentation: any vector orientation with the right elements in order is accepted".into(),
     ];
@@ -487,7 +490,10 @@ impl Check for C03 {
         let mut it = rest.split('@');
         let forms = it.next().unwrap_or("");
         let sc = it.next().unwrap_or("");
-        supported.contains(&format!("{}|{}", sc, forms))
+        // pinned: the (storage, form pair) combinations that produced a value on the tree this check was written against stay judged
+        // even when a change makes every read of that form fail (otherwise a form that stops working altogether would look unsupported)
+        let k = format!("{}|{}", sc, forms);
+        supported.contains(&k) || PINNED_SUPPORTED.lines().any(|l| l == k)
       } else { true }
     });
     rep.cov("in_range_rejections_on_unsupported_form_pairs", json!(before - rep.out.failures.len()));
